@@ -1,2 +1,126 @@
+//! C12 — instance transforms.
+//!  transform_chain  S->I: a chain of right-angle placements with the composed integer affine map
+//!                   computed by D4.tla; compared on the grid -3..3 x -3..3 with
+//!                   (a) cascaded Transform::from_instance, (b) cascaded translate∘rotate∘reflect_vert,
+//!                   (c) Layout::flatten of a real nested library.
+//!  transform_pyth   S->I: one placement with a Pythagorean angle; half-unit tolerance on rational images.
+use crate::util::*;
 use crate::CmdFn;
-pub fn commands() -> Vec<(&'static str, CmdFn)> { vec![] }
+use layout21raw as raw;
+use layout21utils::Ptr;
+use raw::{Point, Transform, TransformTrait};
+use serde_json::{json, Value};
+
+pub fn commands() -> Vec<(&'static str, CmdFn)> {
+    vec![("transform_chain", transform_chain), ("transform_pyth", transform_pyth)]
+}
+
+struct Pl { loc: Point, r: bool, a: i64 }
+fn chain_of(case: &Value) -> Vec<Pl> {
+    geta(case, "chain").iter().map(|p| Pl {
+        loc: Point::new(p["loc"][0].as_i64().unwrap() as isize, p["loc"][1].as_i64().unwrap() as isize),
+        r: p["r"].as_bool().unwrap(), a: p["a"].as_i64().unwrap() }).collect()
+}
+fn angle_opt(a: i64, explicit_zero: bool) -> Option<f64> {
+    if a == 0 && !explicit_zero { None } else { Some(a as f64) }
+}
+
+fn transform_chain(case: &Value) -> Value {
+    let chain = chain_of(case);
+    let m: Vec<Vec<i64>> = geta(case, "m").iter().map(ivec).collect();
+    let t = ivec(&case["t"]);
+    let expect = |p: (i64, i64)| (m[0][0] * p.0 + m[0][1] * p.1 + t[0], m[1][0] * p.0 + m[1][1] * p.1 + t[1]);
+    let mut mism: Vec<Value> = Vec::new();
+    // (a) from_instance cascade, (b) elementary cascade
+    for explicit_zero in [false, true] {
+        let mut ta = Transform::identity();
+        let mut tb = Transform::identity();
+        for pl in &chain {
+            ta = Transform::cascade(&ta, &Transform::from_instance(&pl.loc, pl.r, angle_opt(pl.a, explicit_zero)));
+            let refl = if pl.r { Transform::reflect_vert() } else { Transform::identity() };
+            let e = Transform::cascade(&Transform::translate(pl.loc.x as f64, pl.loc.y as f64),
+                                       &Transform::cascade(&Transform::rotate(pl.a as f64), &refl));
+            tb = Transform::cascade(&tb, &e);
+        }
+        for x in -3..=3i64 { for y in -3..=3i64 {
+            let p = Point::new(x as isize, y as isize);
+            let want = expect((x, y));
+            let ga = p.transform(&ta);
+            let gb = p.transform(&tb);
+            if (ga.x as i64, ga.y as i64) != want && mism.len() < 6 {
+                mism.push(json!({"via":"from_instance","p":[x,y],"got":[ga.x,ga.y],"want":[want.0,want.1]}));
+            }
+            if (gb.x as i64, gb.y as i64) != want && mism.len() < 6 {
+                mism.push(json!({"via":"elementary","p":[x,y],"got":[gb.x,gb.y],"want":[want.0,want.1]}));
+            }
+        }}
+    }
+    // (c) flatten of a nested library; leaf holds an asymmetric rectangle, polygon and path
+    let mut layers = raw::Layers::default();
+    let lk = layers.add(raw::Layer::from_num(1));
+    let leaf_pts_rect = [(1i64, 2i64), (3, 3)];
+    let leaf_poly = [(0i64, 0i64), (3, 0), (0, 1)];
+    let leaf_path = [(0i64, 0i64), (2, 0), (2, 3)];
+    let mk = |s: raw::Shape| raw::Element { net: None, layer: lk, purpose: raw::LayerPurpose::Drawing, inner: s };
+    let p2 = |v: &[(i64, i64)]| v.iter().map(|p| Point::new(p.0 as isize, p.1 as isize)).collect::<Vec<_>>();
+    let mut leaf = raw::Layout::default();
+    leaf.name = "leaf".into();
+    leaf.elems.push(mk(raw::Shape::Rect(raw::Rect { p0: p2(&leaf_pts_rect)[0], p1: p2(&leaf_pts_rect)[1] })));
+    leaf.elems.push(mk(raw::Shape::Polygon(raw::Polygon { points: p2(&leaf_poly) })));
+    leaf.elems.push(mk(raw::Shape::Path(raw::Path { points: p2(&leaf_path), width: 2 })));
+    let mut cur: Ptr<raw::Cell> = Ptr::new(raw::Cell::from(leaf));
+    for (i, pl) in chain.iter().enumerate().rev() {
+        let mut lay = raw::Layout::default();
+        lay.name = format!("lvl{}", i);
+        lay.insts.push(raw::Instance { inst_name: "i".into(), cell: cur.clone(), loc: pl.loc, reflect_vert: pl.r, angle: angle_opt(pl.a, false) });
+        cur = Ptr::new(raw::Cell::from(lay));
+    }
+    let top = cur.read().unwrap();
+    match top.layout.as_ref().unwrap().flatten() {
+        Ok(elems) => {
+            if elems.len() != 3 { mism.push(json!({"via":"flatten","count":elems.len()})); }
+            for e in elems.iter() {
+                let (got, src): (Vec<(i64, i64)>, &[(i64, i64)]) = match &e.inner {
+                    raw::Shape::Rect(r) => (vec![(r.p0.x as i64, r.p0.y as i64), (r.p1.x as i64, r.p1.y as i64)], &leaf_pts_rect),
+                    raw::Shape::Polygon(p) => (p.points.iter().map(|q| (q.x as i64, q.y as i64)).collect(), &leaf_poly),
+                    raw::Shape::Path(p) => { if p.width != 2 { mism.push(json!({"via":"flatten","width":p.width})); }
+                        (p.points.iter().map(|q| (q.x as i64, q.y as i64)).collect(), &leaf_path) }
+                };
+                let want: Vec<(i64, i64)> = src.iter().map(|p| expect(*p)).collect();
+                if got != want && mism.len() < 8 {
+                    mism.push(json!({"via":"flatten","got":got.iter().map(|p| vec![p.0,p.1]).collect::<Vec<_>>(),
+                                     "want":want.iter().map(|p| vec![p.0,p.1]).collect::<Vec<_>>()}));
+                }
+            }
+        }
+        Err(e) => mism.push(json!({"via":"flatten","err":err_str(e)})),
+    }
+    json!({"id": id(case), "outcome":"ok", "evals": 49*4 + 3, "nmismatch": mism.len(), "mismatch": mism})
+}
+
+fn transform_pyth(case: &Value) -> Value {
+    // {c, s, d, r, loc:[x,y], pts:[[x,y,numx,numy],...]}: image = loc + (numx/d, numy/d)
+    let (c, s, d) = (geti(case, "c"), geti(case, "s"), geti(case, "d"));
+    let r = getb(case, "r");
+    let loc = Point::new(case["loc"][0].as_i64().unwrap() as isize, case["loc"][1].as_i64().unwrap() as isize);
+    let angle = (s as f64).atan2(c as f64).to_degrees();
+    let tr = Transform::from_instance(&loc, r, Some(angle));
+    let refl = if r { Transform::reflect_vert() } else { Transform::identity() };
+    let te = Transform::cascade(&Transform::translate(loc.x as f64, loc.y as f64), &Transform::cascade(&Transform::rotate(angle), &refl));
+    let mut mism = Vec::new();
+    let mut n = 0;
+    for q in geta(case, "pts") {
+        let v = ivec(q);
+        let p = Point::new(v[0] as isize, v[1] as isize);
+        for (via, t) in [("from_instance", &tr), ("elementary", &te)] {
+            let g = p.transform(t);
+            let gx = (g.x - loc.x) as i64; let gy = (g.y - loc.y) as i64;
+            n += 1;
+            // half-unit tolerance: 2*|d*impl - num| <= d
+            if 2 * (d * gx - v[2]).abs() > d || 2 * (d * gy - v[3]).abs() > d {
+                if mism.len() < 6 { mism.push(json!({"via":via,"p":[v[0],v[1]],"got":[gx,gy],"num":[v[2],v[3]],"den":d})); }
+            }
+        }
+    }
+    json!({"id": id(case), "outcome":"ok", "evals": n, "nmismatch": mism.len(), "mismatch": mism})
+}
